@@ -10,10 +10,13 @@ CONSTANTS
   Trim = TRUE
   TrOnly = TRUE
   AxisBy = "dims"
+  Memo = FALSE
+  RangeBy = "coords"
   LookupBy = "search"
   StepPrec = "step"
   QueryCast = "none"
 CONSTRAINT Export
+INVARIANT ImplFresh
 INVARIANT ImplStep
 INVARIANT LawDenoted
 INVARIANT ImplCountWhenWhole
